@@ -418,7 +418,11 @@ def finish(ctx, spec):
         json.dump({"property": ctx.pid, "seed": ctx.seed,
                    "description": "proof obligation no longer checks; no failing input found by the "
                                   "correspondence search (budget x%d)" % ctx.mult,
-                   "broken": "coq/Properties/%s.v (theorems: %s)" % (ctx.pid, ", ".join(proof["theorems"])),
+                   "broken": (("kernel-checked tie of the model's constants to the Go source (lib/gen_consts.py): %s; "
+                               % json.dumps([b for b in (ctx.extra.get("constants_translated_from_source") or {}).get("broken", [])
+                                             if not isinstance(b, dict) or ctx.pid in b.get("properties", [])])[:1200])
+                              if (ctx.extra.get("constants_translated_from_source") or {}).get("broken") else "")
+                             + "coq/Properties/%s.v (theorems: %s)" % (ctx.pid, ", ".join(proof["theorems"])),
                    "coq_log": proof["log"][-3000:]}, open(path, "w"), indent=1)
         lines.append("VIOLATION property=%s replay=%s no-failing-input-found" % (ctx.pid, path))
         nviol += 1
@@ -700,6 +704,54 @@ def route_v(ctx, nq=40):
     ctx.extra["route_v"] = {"cases": len(cases), "agree": ok}
     if not ok:
         raise FrameworkError("route V: kernel evaluation and extracted model disagree or coqc failed:\n" + (o + e)[-1500:])
+
+
+# ---------------------------------------------------------------- constants translated from the Go source
+CONST_PIDS_ALL = ["C01", "C02", "C03", "C04", "C05", "C06", "C09", "C14", "C15", "C16", "C17", "C18"]
+
+
+def check_consts(ctx):
+    """lib/gen_consts.py reads the constants out of REPO's Go source and emits one kernel-checked statement
+    per constant ("the model uses this value").  A statement that no longer checks breaks the proof
+    obligation of the properties that constant is used by."""
+    import gen_consts
+    d = os.path.join(BUILD, "consts" if REPO == "/repo" else "consts_" + hashlib.sha1(REPO.encode()).hexdigest()[:10])
+    os.makedirs(d, exist_ok=True)
+    info = {"constants": 0, "agree": True, "broken": []}
+    try:
+        txt, items = gen_consts.generate(REPO)
+    except (gen_consts.Miss, OSError) as e:
+        info.update(agree=False, broken=["translator: %s" % e])
+        ctx.extra["constants_translated_from_source"] = info
+        if ctx.pid in CONST_PIDS_ALL and ctx.proof is not None:
+            ctx.proof["ok"] = False
+            ctx.proof["log"] = "constants translator (lib/gen_consts.py) could not read the Go source: %s\n" % e + ctx.proof.get("log", "")
+            ctx.mult = 3
+        return
+    info["constants"] = len(items)
+    with Lock("consts"):
+        src = os.path.join(d, "GoConstsTie.v")
+        open(src, "w").write(txt)
+        rc, o, e = sh(["coqc", "-q", "-Q", COQ, "GoIpa", src], cwd=d, timeout=600)
+        broken = []
+        if rc != 0:
+            # find every statement that fails, one file each
+            head = txt.split("(* ", 1)[0]
+            for name, go, coq, pids, srcf in items:
+                one = os.path.join(d, "one_%s.v" % name)
+                open(one, "w").write(head + "Example go_%s : %s = %s.\nProof. reflexivity. Qed.\n" % (name, coq, go))
+                rc1, _, _ = sh(["coqc", "-q", "-Q", COQ, "GoIpa", one], cwd=d, timeout=300)
+                if rc1 != 0:
+                    broken.append({"constant": name, "source": srcf, "value_in_source": go[:200], "model_term": coq, "properties": pids})
+    info["agree"] = not broken
+    info["broken"] = broken
+    ctx.extra["constants_translated_from_source"] = info
+    mine = [b for b in broken if ctx.pid in b["properties"]]
+    if mine and ctx.proof is not None:
+        ctx.proof["ok"] = False
+        ctx.proof["log"] = ("constants of the Go source differ from the model's (lib/gen_consts.py, statements closed by the "
+                            "kernel): %s\n" % json.dumps(mine)[:1500]) + ctx.proof.get("log", "")
+        ctx.mult = 3
 
 
 # ---------------------------------------------------------------- coqchk (thorough tier)
